@@ -24,6 +24,10 @@ PKGS = ["bitmap", "bmtree", "bitstr", "bitword", "sigbits", "pbcmpl", "iohelper"
 SUITE = ["./bitmap/...", "./bmtree/...", "./bitstr/...", "./bitword/...", "./sigbits/...", "./pbcmpl/...", "./iohelper/...", "./size/...",
          "./tree/...", "./typehelper/...", "./vers/...", "./mathext/util/..."]
 
+# oracle tests that probe behaviour OUTSIDE the properties' domains (panic texts for invalid arguments, damaged indexes,
+# capacities) are skipped by name; what remains still has to be triaged by hand
+SKIP = "(?i)invalid|panic|extreme|garbage|malformed|damaged|foreign|outof|out_of|capacity|overflow|negative|wild|arbitrary"
+
 def sh(cmd, cwd, timeout, env=ENV):
     try:
         p = subprocess.run(cmd, cwd=cwd, env=env, capture_output=True, text=True, errors="replace", timeout=timeout)
@@ -87,11 +91,12 @@ def worker(wid, q, results, orc, lock):
                 zz = dst + "/" + pkg + "/zz_oracle_test.go"
                 for o in cands:
                     open(zz, "w").write(o["text"])
-                    rc, out = sh(["go", "test", "-vet=off", "-count=1", "-timeout", "120s", "-run", "TestDiff|TestSeedDemo|TestDemo", "./" + pkg], dst, 200)
+                    rc, out = sh(["go", "test", "-vet=off", "-count=1", "-timeout", "120s", "-run", "TestDiff|TestSeedDemo|TestDemo", "-skip", SKIP, "./" + pkg], dst, 200)
                     if "[build failed]" in out or "[setup failed]" in out: continue
                     ran += 1
                     if rc != 0:
                         failing.append(o["id"])
+                        res.setdefault("oracle_output", []).append("\n".join(l for l in out.splitlines() if "FAIL" in l or "panic" in l or "_test.go" in l)[:600])
                         if len(failing) >= 2: break
                 if os.path.exists(zz): os.remove(zz)
                 res["oracles_run"] = ran; res["oracles_failing"] = failing
@@ -116,6 +121,7 @@ def main():
     ap.add_argument("--jobs", type=int, default=8)
     ap.add_argument("--files", default="")
     ap.add_argument("--limit", type=int, default=0)
+    ap.add_argument("--ids", default="", help="comma separated mutant ids (as numbered by bin/mutgen on the current tree)")
     ap.add_argument("--out", default="/tmp/mutsweep.json")
     a = ap.parse_args()
     b = subprocess.run(["go", "build", "-o", V + "/bin/mutgen", "."], cwd=V + "/tools/mutgen", env=ENV, capture_output=True, text=True)
@@ -124,6 +130,8 @@ def main():
     muts = [json.loads(l) for l in g.stdout.splitlines()]
     if a.files:
         fl = a.files.split(","); muts = [m for m in muts if m["file"] in fl]
+    if a.ids:
+        want = set(int(x) for x in a.ids.split(",")); muts = [m for m in muts if m["id"] in want]
     if a.limit: muts = muts[::max(1, len(muts) // a.limit)]
     print(len(muts), "mutants", file=sys.stderr)
     orc = load_oracles()
